@@ -1,5 +1,5 @@
 from ..driver import Prop, Suite
-from .. import resgen, unigen
+from .. import resgen, unigen, multigen
 
 class C08(Prop):
     pid = "C08"; prop_file = "C08.v"
@@ -23,8 +23,12 @@ class C08(Prop):
                 # (Chan/ChanX.v), of the two zero-copy Uni channels through the same scheduler (oracle only)
                 Suite("uni_move_atomic_entry_points", unigen.XHEADER, [unigen.gen_entry_case(rng, "move_atomic", async_ok=False) for _ in range(n // 2)]),
                 Suite("uni_zc_atomic(oracle only)", unigen.HEADER, [unigen.gen_entry_case(rng, "zc_atomic", async_ok=False) for _ in range(n // 3)], compare=False),
-                Suite("uni_zc_full_sync(oracle only)", unigen.HEADER, [unigen.gen_entry_case(rng, "zc_full_sync", async_ok=False) for _ in range(n // 3)], compare=False)]
+                Suite("uni_zc_full_sync(oracle only)", unigen.HEADER, [unigen.gen_entry_case(rng, "zc_full_sync", async_ok=False) for _ in range(n // 3)], compare=False),
+                # the Multi kinds that implement reservations (ogre_arc atomic / full-sync), sequential histories with 0..2 listeners
+                Suite("multi_ogre_arc_atomic(oracle only)", "", [multigen.gen_multi_reserve(rng, "ogre_arc_atomic") for _ in range(n // 4)], compare=False),
+                Suite("multi_ogre_arc_full_sync(oracle only)", "", [multigen.gen_multi_reserve(rng, "ogre_arc_full_sync") for _ in range(n // 4)], compare=False)]
     def oracle(self, case, recs):
+        if case.meta.get("profile") == "reserve": return multigen.oracle_multi_reserve(case, recs)
         if "chan" in case.meta: return unigen.uni_oracle_exactly_once(case, recs) + unigen.uni_oracle_no_leak(case, recs)
         return resgen.oracle(case, recs)
     def nontrivial(self, case, recs):
@@ -32,7 +36,9 @@ class C08(Prop):
         return resgen.nontrivial(case, recs)
     def parse_replay(self, text):
         lines = [l for l in text.splitlines() if l.strip() and not l.startswith("#")]
-        cases = [unigen.parse_case_line(l) if l.startswith("uni ") else resgen.parse_case_line(l) for l in lines]
+        cases = [unigen.parse_case_line(l) if l.startswith("uni ") else multigen.parse_case_line(l) if l.startswith("multi ") else resgen.parse_case_line(l) for l in lines]
+        for c in cases:
+            if c.line.startswith("multi "): c.meta["profile"] = "reserve"
         for c in cases:
             if "chan" not in c.meta: c.meta["profile"] = "sequential" if len(c.meta["progs"]) == 1 else "concurrent"
         return Suite("replay", unigen.XHEADER + "\n" + resgen.HEADER, cases, compare=all(c.coq is not None for c in cases))
